@@ -1,0 +1,93 @@
+//! Verification hooks (compiled only with `--cfg blue_verif`).  Add-only: nothing here is
+//! reachable from the ordinary build, and nothing changes behaviour unless called.
+
+use sst::SstMetadata;
+
+use super::{LsmTree, SError};
+
+/// What the selector chose: levels and the input setsums (hex).
+#[derive(Clone, Debug)]
+pub struct VerifCompaction {
+    pub lower_level: usize,
+    pub upper_level: usize,
+    pub first_key: Vec<u8>,
+    pub last_key: Vec<u8>,
+    pub inputs: Vec<String>,
+    pub size: u64,
+}
+
+impl LsmTree {
+    /// The current version, level by level.
+    pub fn verif_dump(&self) -> Vec<(usize, SstMetadata)> {
+        let version = self.take_snapshot();
+        let mut out = vec![];
+        for (idx, level) in version.version.levels.iter().enumerate() {
+            for sst in level.ssts.iter() {
+                out.push((idx, (**sst).clone()));
+            }
+        }
+        out
+    }
+
+    /// Number of compactions the version believes to be ongoing.
+    pub fn verif_ongoing(&self) -> usize {
+        let version = self.take_snapshot();
+        let n = version.version.ongoing.lock().unwrap().len();
+        n
+    }
+
+    pub fn verif_should_stall(&self) -> bool {
+        self.take_snapshot().version.should_stall_ingest()
+    }
+
+    pub fn verif_should_mandatory(&self) -> bool {
+        self.take_snapshot()
+            .version
+            .should_perform_mandatory_compaction()
+    }
+
+    /// What `next_compaction` would pick now, without leaving it in the ongoing list.
+    pub fn verif_peek_compaction(&self) -> Option<VerifCompaction> {
+        let _mutex = self.compaction.lock().unwrap();
+        let version = self.take_snapshot();
+        let compaction = version.version.next_compaction()?;
+        let desc = VerifCompaction {
+            lower_level: compaction.core.lower_level,
+            upper_level: compaction.core.upper_level,
+            first_key: compaction.core.first_key.clone(),
+            last_key: compaction.core.last_key.clone(),
+            inputs: compaction.inputs().map(|x| x.hexdigest()).collect(),
+            size: compaction.core.size,
+        };
+        let _ = version.version.release_compaction(compaction);
+        Some(desc)
+    }
+
+    /// One iteration of `compaction_thread` without the wait: select under the compaction mutex,
+    /// then perform.  Returns what was performed, or None when the selector found nothing.
+    pub fn verif_compaction_step(&self) -> Result<Option<VerifCompaction>, SError> {
+        let compaction = {
+            let _mutex = self.compaction.lock().unwrap();
+            let version = self.take_snapshot();
+            version.version.next_compaction()
+        };
+        let Some(compaction) = compaction else {
+            return Ok(None);
+        };
+        let desc = VerifCompaction {
+            lower_level: compaction.core.lower_level,
+            upper_level: compaction.core.upper_level,
+            first_key: compaction.core.first_key.clone(),
+            last_key: compaction.core.last_key.clone(),
+            inputs: compaction.inputs().map(|x| x.hexdigest()).collect(),
+            size: compaction.core.size,
+        };
+        if let Err(err) = self.perform_compaction(compaction.clone()) {
+            let _mutex = self.compaction.lock().unwrap();
+            let version = self.take_snapshot();
+            let _ = version.version.release_compaction(compaction);
+            return Err(err);
+        }
+        Ok(Some(desc))
+    }
+}
